@@ -162,6 +162,7 @@ static int fs_close(int fd)
 }
 int simfs_close(int fd) { return fs_close(fd); }
 int simfs_is_fd(int fd) { return fd >= FS_FD_BASE && fd < FS_FD_MAX; }
+long simfs_fd_size(int fd) { return (fd >= FS_FD_BASE && fd < FS_FD_MAX && fsfd[fd - FS_FD_BASE].used) ? (long)nodes[fsfd[fd - FS_FD_BASE].node].len : -1; }
 
 /* two calls that succeed in ordinary life and may legally fail: the k-th fdopen() of a run with EMFILE (no stream to be had), the
    k-th fchmod() with EPERM (a file system that does not do modes); 0 = never.  Set per run from the plan's knobs. */
